@@ -3,6 +3,7 @@ from __future__ import annotations
 
 import copy
 import json
+import os
 import shutil
 from concurrent.futures import ProcessPoolExecutor
 from typing import Any, Dict, List
@@ -48,6 +49,32 @@ def _dfs(args):
     return paths, len(seen)
 
 
+def run_apalache(tmp):
+    """IndInv of QubitPool.tla is inductive: base case, inductive step, and IndInv => UsedIsMapped"""
+    import shutil as sh_
+    import subprocess
+    d = f"{tmp}/apa"
+    os.makedirs(d, exist_ok=True)
+    sh_.copy(C.SPEC / "QubitPool.tla", d)
+    sh_.copy(C.SPEC / "apalache" / "MC_QubitPool.tla", d)
+    runs = {"base: Init => IndInv": ["--init=Init", "--inv=IndInv", "--length=0"],
+            "step: IndInv /\\ Next => IndInv'": ["--init=IndInit", "--inv=IndInv", "--length=1"],
+            "IndInv => UsedIsMapped": ["--init=IndInit", "--inv=UsedIsMapped", "--length=0"]}
+    out = {}
+    for name, args in runs.items():
+        try:
+            r = subprocess.run(["apalache-mc", "check", *args, f"--out-dir={d}/o", "MC_QubitPool.tla"], cwd=d, capture_output=True, text=True, timeout=2400)
+        except subprocess.TimeoutExpired:
+            raise C.MachineryError(f"apalache timed out on {name}")
+        m = [l for l in r.stdout.splitlines() if "The outcome is:" in l]
+        if not m:
+            raise C.MachineryError(f"apalache gave no outcome for {name}: {r.stdout[-600:]}")
+        out[name] = m[-1].split("The outcome is:")[1].split()[0]
+        if out[name] not in ("NoError", "Error"):
+            raise C.MachineryError(f"apalache outcome {out[name]} for {name}")
+    return out
+
+
 def run(prop: str, tier: str) -> int:
     V = C.Verdicts(prop, tier)
     tmp = C.tmpdir()
@@ -62,6 +89,20 @@ def run(prop: str, tier: str) -> int:
         acts = ("InitApp", "StopApp", "BeginSub", "StepApp", "Retry")
         if min(r.coverage.get(a, 0) for a in acts) == 0 or r.coverage.get("DeliverK", 0) + r.coverage.get("Next", 0) == 0:
             raise C.MachineryError(f"vacuous: a Controller action was never taken {r.coverage}")
+        # (1b) Controller refines the abstract qubit pool (TLC), whose invariant is inductive (Apalache, thorough tier)
+        pool_cfg = f"{tmp}/ControllerPool.cfg"
+        open(pool_cfg, "w").write(open(C.SPEC / "ControllerPool.cfg").read().replace("MaxDepth = 12", "MaxDepth = %d" % (9 if tier == "quick" else 12)))
+        rp = C.run_tlc("ControllerPool", cfg=pool_cfg, timeout=3000, check_rc=False, heap="8g")
+        if rp.rc != 0 and not rp.violated:
+            raise C.MachineryError(f"TLC failed on ControllerPool:\n{rp.out[-1500:]}")
+        for inv in rp.violated:
+            V.add("controller-does-not-refine-qubit-pool", {"what": inv}, f"ControllerPool.tla: {inv} violated: a step of Controller.tla is not a step of QubitPool.tla (or the pool invariant fails)")
+        apalache = {}
+        if tier != "quick":
+            apalache = run_apalache(tmp)
+            for name, out in apalache.items():
+                if out == "Error":
+                    V.add("qubit-pool-invariant-not-inductive", {"run": name}, f"Apalache reports a counterexample for {name} on QubitPool.tla")
         # (2) code -> spec: bounded exhaustive DFS + long random walks on the real controller
         n = C.ncpu()
         depth = 7 if tier == "quick" else 9
@@ -109,6 +150,8 @@ def run(prop: str, tier: str) -> int:
             "samples": [[[e["a"], e.get("app"), e.get("p", e.get("n"))] for e in traces[0]],
                         [[e["a"], e.get("app"), e.get("p", e.get("n"))] for e in traces[-1]][:40]],
             "model_states": r.distinct, "model_depth": r.depth, "model_action_coverage": r.coverage,
+            "refinement_Controller_to_QubitPool": {"tlc_states": rp.distinct, "depth": rp.depth, "held": not rp.violated},
+            "apalache_inductive_invariant": apalache or "thorough tier only",
             "real_operations_by_kind": kinds, "dfs_real_states": sum(s for _, s in dfs),
             "selftest": "corrupted used set and skipped operation both rejected",
             "exhaustive": False, "checker_cmd": r.cmd,
